@@ -3,6 +3,7 @@ import InToto.Driver.Rules
 import InToto.Driver.Meta
 import InToto.Driver.Subst
 import InToto.Driver.Misc
+import InToto.Driver.Cert
 import InToto.Model.Glob
 import InToto.Spec.Glob
 
@@ -40,6 +41,9 @@ def handle (j : Json) : Json :=
   | some r => r
   | none =>
   match handleMisc op a with
+  | some r => r
+  | none =>
+  match handleCert op a with
   | some r => r
   | none => Json.mkObj [("error", Json.str ("unknown op " ++ op))]
 
